@@ -251,6 +251,36 @@ def orientation(ctx: Ctx):
     dim = ctx.repo.cls("dimension.py", "Dimension")
     e = expand(ctx.repo, dim, "numeric_values", stop=lambda mm: True)
     ctx.check_expr("numeric-values", "dimension.py::Dimension.numeric_values", e, "tuple((element.numeric_value for element in self.valid_elements))")
+    # whatever the spelling: the numeric values are those the response gives the categories - for EVERY dimension type whose
+    # elements are categories (a categorical-date dimension is a categorical one whose categories also carry a date).  A
+    # type guard that answers "no numeric values" for such a type switches the scale statistics off although valued
+    # respondents exist.  Decision table over DIMENSION_TYPE of the type guards in front of a NaN-only result.
+    from ..dectab import DTop, Raises
+    from ..typetab import dt_members, eval_over_types
+
+    full = expand(ctx.repo, dim, "numeric_values", stop=lambda mm: not (bool({n.attr for n in ast.walk(mm.node) if isinstance(n, ast.Attribute) and isinstance(n.value, ast.Name) and n.value.id == "self"}) and {n.attr for n in ast.walk(mm.node) if isinstance(n, ast.Attribute) and isinstance(n.value, ast.Name) and n.value.id == "self"} <= {"dimension_type"}))
+    where = "dimension.py::Dimension.numeric_values [by dimension type]"
+    categorical = ("CAT", "CA_CAT", "CAT_DATE", "LOGICAL", "MR_CAT")
+    forced = []
+    for guards, leaf in strip_ifexp_paths(full):
+        if not guards or not all("dimension_type" in u(t) for t, _p in guards):
+            continue
+        reads_values = any(isinstance(n, ast.Attribute) and n.attr in ("numeric_value", "numeric_values") for n in ast.walk(leaf))
+        if not reads_values and "nan" in u(leaf).lower():
+            forced.append(guards)
+    if not forced:
+        ctx.held("numeric-values.types", where, "no type guard stands in front of the categories' numeric values", "the values the response gives the categories, for every categorical type")
+    else:
+        bad = []
+        try:
+            for mem in dt_members(ctx.repo):
+                hit = any(all(bool(eval_over_types(ctx.repo, dim.module, t, {"self.dimension_type": mem})) == pol for t, pol in gs) for gs in forced)
+                if hit and mem in categorical:
+                    bad.append(mem)
+            ctx.ob("numeric-values.types", where, [f"{b}: all NaN whatever the response says" for b in bad] or "NaN-only for types without categories only", "the categories' own numeric values for CAT, CA_CAT, CAT_DATE, LOGICAL, MR_CAT", not bad,
+                   "the scale mean / median / std-dev of a table whose scale dimension is of that type is None although numeric-valued respondents exist")
+        except (DTop, Raises, KeyError) as exc:
+            ctx.undecided("numeric-values.types", where, f"DECTAB: {exc}", "table over DIMENSION_TYPE")
 
 
 def definedness(ctx: Ctx):
